@@ -32,4 +32,14 @@ PROPS = {
             {"engine": "mcpgate", "test": "TestProp_C20_Table", "quick": 10000, "thorough": 400000},
         ],
     },
+    "C14": {
+        "rule": "MCP tier: the queue mutation tools (messages_cancel/requeue/resume, dlq_requeue/delete, the three *_by_filter tools) of a real MCP server in "
+                "direct mode (SQLite file) and admin-proxy mode (memory store behind a real Admin API server on loopback), endpoint selected by route or by "
+                "application+endpoint_name, with target/state/before/limit/preview_only criteria on a two-target managed route and an unmanaged route; "
+                "independent selector as in the store and HTTP tiers; non-trivial = a change with an otherwise-matching message left alone, or a target "
+                "criterion that selected something",
+        "assumptions": [SAMPLED],
+        "guards": ["mode-direct", "mode-proxy", "applied", "preview", "scoped-selector", "target-criterion-applied"],
+        "parts": [{"engine": "mcpgate", "test": "TestProp_C14_MCP", "quick": 600, "thorough": 40000, "shards": {"quick": 4}}],
+    },
 }
